@@ -349,6 +349,22 @@ def validate(ctx, events, name='Trace_C10'):
     return res.emits[0]
 
 
+def validate_all(ctx, events, nsess):
+    """one TLC run for a trace of ordinary size; a long trace (thorough tier) is validated in parts, sessions dealt round-robin, a session
+    and its twin recorded by the fresh process in the same part (Memo then ranges over the sessions of a part; the history variable makes
+    one long run slower than linear)"""
+    if len(events) <= 30000:
+        return validate(ctx, events)
+    from concurrent.futures import ThreadPoolExecutor
+    nparts = 8
+    parts = [[] for _ in range(nparts)]
+    for e in events:
+        parts[(e['tid'] % nsess) % nparts].append(e)
+    with ThreadPoolExecutor(max_workers=4) as ex:
+        outs = list(ex.map(lambda p_: validate(ctx, p_), [p_ for p_ in parts if p_]))
+    return {'bad': [b for o in outs for b in o['bad']], 'memo': sum(o['memo'] for o in outs), 'n': sum(o['n'] for o in outs)}
+
+
 def report_bad(ctx, events, verdict):
     byts = {(e['tid'], e['seq']): e for e in events}
     for b in verdict['bad']:
@@ -474,7 +490,7 @@ def run(ctx):
             ctx.violation({'clause': 'Memo', 'f': 'fit_tilt-after-a-plane-of-the-same-shape', 'order': '-then-'.join(order)},
                           {'recorded_square_pixels': a_, 'recorded_anamorphic_pixels': b_}, case=None)
     ctx.extra['events_reverse_session_order_fresh_process'] = len(events) - nfwd
-    verdict = validate(ctx, events)
+    verdict = validate_all(ctx, events, nsess)
     report_bad(ctx, events, verdict)
     selftest(ctx, events)
     for e in events:
